@@ -22,10 +22,10 @@ import (
 // element, leaf index for leaf index and proof hash for proof hash, and its
 // proofs must verify against the state.
 type shadow struct {
-	b    *harness.B
-	c    *chaingen.Chain
-	S    *chaingen.Store
-	ctx  string // network family / scenario, for witnesses
+	b   *harness.B
+	c   *chaingen.Chain
+	S   *chaingen.Store
+	ctx string // network family / scenario, for witnesses
 	// resync: the shadow could not follow the last update (reported); copy the chain's store
 	resync bool
 	// lastJSON is the JSON form of the update being judged (for witnesses)
@@ -386,8 +386,8 @@ func (s *shadow) attach() {
 
 // runHistories: chaingen histories over the network families with reorgs.
 func runHistories(b *harness.B, idx int) {
-	nNets := b.Pick(3, 10)
-	blocks := b.Pick(180, 500)
+	nNets := b.Pick(3, 6)
+	blocks := b.Pick(180, 400)
 	for i := 0; i < nNets; i++ {
 		fam := chaingen.Families[(idx+i)%len(chaingen.Families)]
 		rng := b.SubRng(fmt.Sprint("net", i))
